@@ -34,8 +34,12 @@ type scenario struct {
 	// non-nil.
 	interproc bool
 	depth     int
+	// noInline lists functions that must stay opaque (anchors the rule treats itself).
+	noInline map[*kit.Func]bool
 
-	std *kit.Std
+	std    *kit.Std
+	ranges map[types.Object]*ast.RangeStmt
+	defs   map[types.Object][]ast.Expr
 }
 
 type scenarioHit struct {
@@ -51,20 +55,98 @@ type scenarioResult struct {
 	rets  map[string]int // "nil"/"nonnil"/"unknown" -> count
 }
 
+func (sc *scenario) objOf(e ast.Expr) types.Object {
+	if sc.std != nil {
+		return sc.std.ObjOf(e)
+	}
+	return kit.ObjOf(sc.f.Info(), e)
+}
+
 func (sc *scenario) isBatch(e ast.Expr) bool {
-	o := kit.ObjOf(sc.f.Info(), e)
+	o := sc.objOf(e)
 	return o != nil && sc.batch[o]
 }
 
 // elemOf reports whether e denotes an element of the batch: a range value
-// variable over it, or batch[i].
+// variable over it (in the analysed function or in a helper evaluated inline,
+// where the ranged parameter is bound to the batch), or batch[i].
 func (sc *scenario) isElem(e ast.Expr) bool {
 	e = ast.Unparen(e)
 	if ix, ok := e.(*ast.IndexExpr); ok {
 		return sc.isBatch(ix.X)
 	}
-	o := kit.ObjOf(sc.f.Info(), e)
-	return o != nil && sc.elems[o]
+	o := sc.objOf(e)
+	if o == nil {
+		return false
+	}
+	if sc.elems[o] {
+		return true
+	}
+	if rs := sc.rangeOfVar(o); rs != nil {
+		return sc.isBatch(rs.X)
+	}
+	// pt := &batch[i] / pt := batch[i] (single definition)
+	if def := sc.singleDef(o); def != nil {
+		d := ast.Unparen(def)
+		if u, ok := d.(*ast.UnaryExpr); ok && u.Op == token.AND {
+			d = ast.Unparen(u.X)
+		}
+		if ix, ok := d.(*ast.IndexExpr); ok {
+			return sc.isBatch(ix.X)
+		}
+	}
+	return false
+}
+
+// singleDef returns the defining expression of a local variable that is assigned
+// exactly once (anywhere in the package's functions).
+func (sc *scenario) singleDef(o types.Object) ast.Expr {
+	if sc.defs == nil {
+		sc.defs = map[types.Object][]ast.Expr{}
+		info := sc.f.Info()
+		for _, f := range sc.c.P.Funcs(sc.f.PkgRel()) {
+			if f.Body == nil || f.Lit != nil {
+				continue
+			}
+			ast.Inspect(f.Body, func(n ast.Node) bool {
+				if as, ok := n.(*ast.AssignStmt); ok && len(as.Lhs) == len(as.Rhs) {
+					for i, l := range as.Lhs {
+						if v := kit.ObjOf(info, l); v != nil {
+							sc.defs[v] = append(sc.defs[v], as.Rhs[i])
+						}
+					}
+				}
+				return true
+			})
+		}
+	}
+	if d := sc.defs[o]; len(d) == 1 {
+		return d[0]
+	}
+	return nil
+}
+
+// rangeOfVar finds the range statement (anywhere in the package) whose value
+// variable is o.
+func (sc *scenario) rangeOfVar(o types.Object) *ast.RangeStmt {
+	if sc.ranges == nil {
+		sc.ranges = map[types.Object]*ast.RangeStmt{}
+		info := sc.f.Info()
+		for _, f := range sc.c.P.Funcs(sc.f.PkgRel()) {
+			if f.Body == nil || f.Lit != nil {
+				continue
+			}
+			ast.Inspect(f.Body, func(n ast.Node) bool {
+				if rs, ok := n.(*ast.RangeStmt); ok && rs.Value != nil {
+					if v := kit.ObjOf(info, rs.Value); v != nil {
+						sc.ranges[v] = rs
+					}
+				}
+				return true
+			})
+		}
+	}
+	return sc.ranges[o]
 }
 
 // elemField matches `<elem>.<field>`.
@@ -113,6 +195,31 @@ func (sc *scenario) run() *scenarioResult {
 		return sc.atom(sc, e)
 	}
 	st.Fold = func(e ast.Expr, s kit.S) (bool, bool) {
+		// `i < len(batch)` with i known to be 0: the scenario's batch is non-empty
+		if a, b, op, ok := kit.CmpAtom(e); ok {
+			lenOfBatch := func(x ast.Expr) bool {
+				call, ok := ast.Unparen(x).(*ast.CallExpr)
+				if !ok || len(call.Args) != 1 {
+					return false
+				}
+				bi, ok := kit.Callee(sc.f.Info(), call).(*types.Builtin)
+				return ok && bi.Name() == "len" && sc.isBatch(call.Args[0])
+			}
+			isZero := func(x ast.Expr) bool {
+				v, ok := st.FoldExpr(x, s)
+				return ok && v.Kind() == constant.Int && constant.Sign(v) == 0
+			}
+			switch {
+			case lenOfBatch(b) && isZero(a) && (op == token.LSS || op == token.NEQ):
+				return true, true
+			case lenOfBatch(a) && isZero(b) && (op == token.GTR || op == token.NEQ):
+				return true, true
+			case lenOfBatch(b) && isZero(a) && (op == token.GEQ || op == token.EQL):
+				return false, true
+			case lenOfBatch(a) && isZero(b) && (op == token.LEQ || op == token.EQL):
+				return false, true
+			}
+		}
 		if sc.fold == nil {
 			return false, false
 		}
@@ -128,40 +235,9 @@ func (sc *scenario) run() *scenarioResult {
 		}
 		return nil
 	}
-	if sc.interproc {
-		st.ErrTag = func(call *ast.CallExpr, s kit.S) string {
-			if sc.depth > 2 {
-				return ""
-			}
-			cf := sc.f.CalleeFunc(call)
-			if cf == nil || cf.Body == nil || cf == sc.f {
-				return ""
-			}
-			params := cf.Params()
-			sub := &scenario{c: sc.c, name: sc.name, f: cf, batch: map[types.Object]bool{}, init: sc.init,
-				atom: sc.atom, fold: sc.fold, interproc: true, depth: sc.depth + 1}
-			for i, a := range call.Args {
-				if sc.isBatch(a) && i < len(params) {
-					sub.batch[params[i]] = true
-				}
-			}
-			if len(sub.batch) == 0 {
-				return ""
-			}
-			r := sub.run()
-			sc.c.Analysed(cf)
-			if len(r.exits) > 0 && r.rets["nonnil"] == len(r.exits) {
-				return "always-error"
-			}
-			return ""
-		}
-		st.OnErrEdge = func(tag string, isErr bool, s kit.S) (kit.S, bool) {
-			if tag == "always-error" && !isErr {
-				return s, false
-			}
-			return s, true
-		}
-	}
+	// helpers of the same package are evaluated inline under the same scenario, so a
+	// guard or predicate moved into a helper is still seen
+	st.ShouldInline = func(cf *kit.Func, call *ast.CallExpr) bool { return !sc.noInline[cf] }
 	st.OnBranch = func(br kit.Branch, s kit.S) (t, f []kit.S, handled bool) {
 		if br.Kind == kit.BrRange && sc.isBatch(br.Range.X) {
 			k := fmt.Sprintf("it:%d", br.Range.Pos())
